@@ -141,6 +141,7 @@ def _check_main(run, P):
              "what statements touch (shared with C08.reads / C08.writes)", minimum=20)
     from . import c08 as _c08, stmtmodel as _sm
     _c08.reads_writes(run, P, _sm.statement_classes(P), "C07.readsets", "C07.readsets")
+    _c08._written_whole(run, P, _sm.statement_classes(P), "C07.readsets")
 
     m = P.module(MOD)
     _seed(run, P)
@@ -172,6 +173,7 @@ def _check_main(run, P):
     _rhs_only(run, P)
     _flat_and(run, P)
     _kwpair(run, P)
+    _append_only(run, P)
 
 
 def _seed(run, P):
@@ -753,6 +755,43 @@ def _rhs_only(run, P):
                        "field but the written names: a name list that is bound inside a "
                        "mapped field (the unknowns of an implicit solve) and stays behind "
                        "no longer matches the renamed occurrences")
+
+
+def _append_only(run, P):
+    """The list of statements a pass builds for one original statement only
+    grows, by append: nothing in it is replaced, merged or removed afterwards."""
+    run.rule("C07.grow", "the statement list a pass returns for one statement is built "
+             "by appending only", minimum=3)
+    m = P.module(MOD)
+    n = 0
+    for cname in sorted(m.classes):
+        c = m.classes[cname]
+        f = c.methods.get("map_statement")
+        if f is None or f.cls is not c:
+            continue
+        lists = stmt_list_names(f) - {"self.new_statements"}
+        if not lists:
+            continue
+        bad = []
+        for x in ast.walk(f.node):
+            if isinstance(x, (ast.Assign, ast.Delete, ast.AugAssign)):
+                tg = x.targets if isinstance(x, (ast.Assign, ast.Delete)) else [x.target]
+                for t in tg:
+                    if isinstance(t, ast.Subscript) and dotted(t.value) in lists:
+                        bad.append(x)
+            if isinstance(x, ast.Call) and isinstance(x.func, ast.Attribute) \
+                    and dotted(x.func.value) in lists \
+                    and x.func.attr in ("pop", "remove", "insert", "clear", "reverse", "sort"):
+                bad.append(x)
+        n += 1
+        run.ob("C07.grow", f, bad[0] if bad else f.node, not bad,
+               construct=f"{cname}.map_statement: {sorted(lists)} only grows by append"
+                         + (f" (found {norm(bad[0], 60)})" if bad else ""),
+               why="fusing or replacing statements after the fact re-derives a statement "
+                   "from pieces (the assignee name without its subscript, say): 'a[i] <- f(x)' "
+                   "comes back as 'a <- f(x)'")
+    if n == 0:
+        raise AnalysisError("C07.grow: no statement-level rewriter found")
 
 
 def _flat_and(run, P):
